@@ -510,6 +510,54 @@ def _job_limits(_job):
             elif not expect_error and "error" in got:
                 part.violation(f"C19:limits:too-strict:{label}", f"{label} with {kw}: {got['error']} {got.get('msg')}", case)
             part.outcome((label, got.get("error")))
+    # decoding a compressed part step by step: no step hands back more than the configured step size, also when
+    # the compressed input is large enough to be inflated in the executor (a zip bomb must not be inflated at once)
+    import gzip as _gzip
+    from aiohttp.multipart import BodyPartReader
+    from multidict import CIMultiDictProxy
+    for nbytes in (1 << 20, 6 << 20):
+        for enc in ("gzip", "deflate"):
+            raw = b"\0" * nbytes
+            if enc == "gzip":
+                blob = _gzip.compress(raw, mtime=0)
+            else:
+                co = zlib.compressobj(wbits=-zlib.MAX_WBITS)       # multipart "deflate" parts are header-less
+                blob = co.compress(raw) + co.flush()
+            loop = VLoop().hold()
+            try:
+                async def go(blob=blob, enc=enc):
+                    proto = _Proto(loop)
+                    stream = StreamReader(proto, 2 ** 16, loop=loop)
+                    stream.feed_eof()
+                    br = BodyPartReader(b"--" + B.encode(), CIMultiDictProxy(CIMultiDict({"Content-Encoding": enc})), stream)
+                    sizes, total = [], 0
+                    async for piece in br.decode_iter(blob):
+                        sizes.append(len(piece))
+                        total += len(piece)
+                    return sizes, total, br._max_decompress_size
+                t = loop.create_task(go())
+                for _ in range(2000):
+                    loop.drain(500)
+                    while loop.exec_jobs:
+                        loop.complete_exec_job(0)
+                    if t.done():
+                        break
+                part.count("executions")
+                part.count("transitions", 1)
+                case = {"kind": "limits-decode", "label": f"decode_iter/{enc}/{nbytes}"}
+                if not t.done():
+                    part.violation("C19:limits:decode_iter-hangs", case["label"], case)
+                    t.cancel()
+                    loop.drain(10)
+                else:
+                    sizes, total, step = t.result()
+                    if total != nbytes:
+                        part.violation("C19:limits:decode_iter-content", f"{case['label']} (compressed {len(blob)} bytes): {total} bytes decoded", case)
+                    elif max(sizes) > step + 1024:
+                        part.violation("C19:limits:decode-step-unbounded", f"{case['label']} (compressed {len(blob)} bytes): one step returned {max(sizes)} bytes, step size is {step}", case)
+                    part.outcome((case["label"], len(sizes)))
+            finally:
+                loop.finish()
     return part
 
 
